@@ -117,6 +117,17 @@ class StmtMixin:
     def _s_Assign(self, s, path):
         try:
             v = self.eval(s.value, path)
+            if len(s.targets) == 1 and isinstance(s.targets[0], ast.Name) and isinstance(s.value, ast.Attribute) and isinstance(s.value.value, ast.Name) \
+                    and isinstance(v, (sv.SList, sv.SDict, sv.SSet)) and not getattr(v, "fresh", False) and s.value.value.id in path.env \
+                    and isinstance(path.env[s.value.value.id], sv.SRef):
+                # `x = obj.attr` where the attribute holds a mutable container: x is another name for that object, in-place operations
+                # through x change it (containers are values in this encoding, so the name is resolved where the object lives)
+                self.assign(s.targets[0], sv.NONE, path)
+                hidden = sv.uid("$alias_base")           # the object is fixed now; the variable it was reached through may be rebound later
+                path.env[hidden] = path.env[s.value.value.id]
+                path.env[s.targets[0].id] = sv.SPy("alias", ast.copy_location(ast.Attribute(value=ast.copy_location(ast.Name(id=hidden, ctx=ast.Load()), s.value),
+                                                                                                attr=s.value.attr, ctx=ast.Load()), s.value))
+                return [(NEXT, path, None)]
             for t in s.targets:
                 self.assign(t, v, path)
         except RaisedInExpr as r:
@@ -487,7 +498,15 @@ class StmtMixin:
                     effect_calls = True
             elif isinstance(node, ast.ExceptHandler) and node.name:
                 names.add(node.name)
+        for n in sorted(names):
+            a = p.env.get(n)
+            if isinstance(a, sv.SPy) and a.what == "alias" and not any(isinstance(x, (ast.Assign, ast.AnnAssign)) and any(isinstance(t, ast.Name) and t.id == n for t in getattr(x, "targets", [getattr(x, "target", None)]))
+                                                                       for x in ast.walk(s)):
+                names.discard(n)                      # mutated in place through a local alias: the field is what changes
+                fields.add(self.alias_field(a.payload.attr))
         ltypes = (spec or {}).get("locals", {})
+        ren = getattr(self, "local_rename", {})
+        ltypes = {ren.get(k, k): v for k, v in ltypes.items()}
         for n in sorted(names):
             if n in ltypes:
                 p.env[n] = sv.mk(ltypes[n], sv.uid(f"hv.{n}"))
